@@ -10,12 +10,14 @@ pub fn observe(text: &str) -> Result<Result<([u8; 32], [u8; 32], [u8; 32]), Stri
     guard(|| serde_json::from_str::<TypedData>(text).map(|t| (t.domain_separator().0, t.message_hash().0, t.signing_message().0)).map_err(|e| e.to_string()))
 }
 /// runs one document on the implementation and the reference and compares
-pub fn check_doc(ctx: &Ctx, p: &str, sweep: &str, index: u64, shape: &str, doc: &Doc) { check_json(ctx, p, sweep, index, shape, &doc.to_json().to_text(), eip712::evaluate(doc)) }
+/// the order of JSON object keys (top level, domain, message, nested structs, member descriptors) rotates with the case
+/// index: as emitted, reversed, rotated by one; the reference is order-independent by construction
+pub fn check_doc(ctx: &Ctx, p: &str, sweep: &str, index: u64, shape: &str, doc: &Doc) { check_json(ctx, p, sweep, index, shape, &doc.to_json().reordered(index % 3).to_text(), eip712::evaluate(doc)) }
 pub fn check_json(ctx: &Ctx, p: &str, sweep: &str, index: u64, shape: &str, text: &str, verdict: (Class<eip712::Digests>, String)) {
     let (class, why) = verdict;
     let replay = || json!({"sweep": sweep, "index": index, "entry": "serde_json::from_str::<TypedData>", "typed_data_json": if text.len() > 6000 { format!("{}…", &text[..6000]) } else { text.to_string() }, "reference": class.name(), "reference_note": why,
         "reference_digest": match &class { Class::Accept(d) | Class::Unc(d) => Some(explore::hex(&d.digest)), _ => None }});
-    let stride = match ctx.property.as_str() { "C08" => 7, "C09" => 1, "C20" => 61, _ => 0 };
+    let stride = match ctx.property.as_str() { "C08" => 7, "C09" => 1, "C20" => if sweep.starts_with("ill-formed") { 4 } else { 61 }, _ => 0 };
     if stride > 0 && text.len() < 100_000 { ctx.emit_cli(sweep, index, stride, || json!({"kind": "typeddata", "shape": shape, "json": text, "class": class.name(), "digests": match &class { Class::Accept(d) | Class::Unc(d) => Some(vec![explore::hex(&d.domain_separator), explore::hex(&d.message_hash), explore::hex(&d.digest)]), _ => None }})); }
     ctx.sample(sweep, || json!({"shape": shape, "reference": class.name(), "json": if text.len() > 700 { format!("{}…", &text[..700]) } else { text.to_string() }}));
     match observe(text) {
